@@ -201,6 +201,11 @@ def main():
     if tot_judged + tot_skipped and \
             tot_skipped > max_skip * (tot_judged + tot_skipped):
         inconclusive.append(f'{tot_skipped} not-judged vs {tot_judged} judged')
+    extra_cov = {}
+    if hasattr(mod, 'post_aggregate'):
+        cov, reasons = mod.post_aggregate(events, mon)
+        extra_cov.update(cov)
+        inconclusive.extend(reasons)
     if len(nontriv) < 2:
         inconclusive.append(f'only {len(nontriv)} distinct non-trivial cases')
 
@@ -250,6 +255,7 @@ def main():
             'inconclusive_reasons': inconclusive,
             'tree': repo_fingerprint(core.REPO),
             'exhaustive': bool(getattr(mod, 'EXHAUSTIVE', False)),
+            **extra_cov,
         },
         'assumptions': getattr(mod, 'ASSUMPTIONS', []),
         'wall_s': round(wall, 2),
